@@ -470,7 +470,7 @@ fn pso_strategy(max_iters: u32) -> impl Strategy<Value = PsoCase> {
 }
 
 pub fn run_all(ctx: &mut Ctx, replay: Option<&Path>) {
-    ctx.rule("case = real_pso run (swarm 1-12, dim 1-5, start/end weight in [0,1.2], c1/c2 in [0,2.5] incl. both 0, v_max in {0.001, 0.1, 1, 10} x domain width, 6 objective kinds incl. one that is +inf on half of the domain, 4 domains, 1-20 iterations, seed; a quarter of the runs assembled from the generic pso template with initial velocities drawn from a range independent of - also larger than - the update's v_max) audited at every component step: after each velocity update |v| <= v_max, x_after == x_before + v_new exactly, particles unevaluated, v_new inside the interval hull w*v_old + [0,c1](xp-x) + [0,c2](xg-x) computed with the STORED inertia weight (exactly clamp(w*v_old) when c1 = c2 = 0); after each inertia mapping weight == (end-start)*progress+start bit-exactly with the loop's current progress; after each swarm update every personal best == min over that particle's evaluated history (harness-tracked), a member of it, never worse, global best == best personal best; one velocity / personal best per particle at every step; non-trivial = a step where a velocity component was clamped, or >= 3 passes with a personal-best improvement; plus direct velocity-update cases with mismatched collection sizes (documented errors); distinct by case");
+    ctx.rule("case = real_pso run (swarm 1-12, dim 1-5, start/end weight in [0,1.2], c1/c2 in [0,2.5] incl. both 0, v_max in {0.001, 0.1, 1, 10} x domain width, 6 objective kinds incl. one that is +inf on half of the domain, 4 domains, 1-20 iterations, seed; a quarter of the runs assembled from the generic pso template with initial velocities drawn from a range independent of - also larger than - the update's v_max) optionally with a log rule whose trigger bounds the same iteration counter by n / 2 and is evaluated by the template's logger at the end of every pass) audited at every component step: after each velocity update |v| <= v_max, x_after == x_before + v_new exactly, particles unevaluated, v_new inside the interval hull w*v_old + [0,c1](xp-x) + [0,c2](xg-x) computed with the STORED inertia weight (exactly clamp(w*v_old) when c1 = c2 = 0); after each inertia mapping weight == (end-start)*progress+start bit-exactly with the loop's current progress; after each swarm update every personal best == min over that particle's evaluated history (harness-tracked), a member of it, never worse, global best == best personal best; one velocity / personal best per particle at every step; non-trivial = a step where a velocity component was clamped, or >= 3 passes with a personal-best improvement; plus direct velocity-update cases with mismatched collection sizes (documented errors); distinct by case");
     let p = PsoCheck;
     let m = MismatchCheck;
     if let Some(path) = replay {
